@@ -18,6 +18,7 @@ import (
 	"net/netip"
 	"strings"
 	"sync"
+	"sync/atomic"
 	"syscall"
 	"testing"
 	"time"
@@ -406,7 +407,7 @@ func TestVfC17QuicTarget(t *testing.T) {
 // TestVfC17ServerName: with dial_addr pointing at harness servers, the TLS server name and the HTTP Host
 // still derive from the URL host.
 func TestVfC17ServerName(t *testing.T) {
-	st := vfkit.Stats("TestVfC17ServerName", "tls/tls+pipeline/https/http/quic/h3 upstreams whose URL host is a domain name or IP (with/without port) while dial_addr points at a harness TLS or HTTP server; oracle: SNI == URL host without port (no SNI for IP literals), HTTP Host == URL host[:port]; non-trivial = every case (dial_addr always set)")
+	st := vfkit.Stats("TestVfC17ServerName", "tls/tls+pipeline/https/http/quic/h3 upstreams whose URL host is a domain name or IP (with/without port) while dial_addr points at a harness TLS or HTTP server; the HTTP and one of the HTTPS servers answer (500, or a redirect to another host); oracle: SNI == URL host without port (no SNI for IP literals) in every handshake, HTTP Host == URL host[:port] in every request; non-trivial = every case (dial_addr always set)")
 	defer vfkit.Flush()
 	// TLS capture server
 	var mu sync.Mutex
@@ -442,12 +443,41 @@ func TestVfC17ServerName(t *testing.T) {
 		t.Fatal(err)
 	}
 	defer hl.Close()
-	go http.Serve(hl, http.HandlerFunc(func(w http.ResponseWriter, r *http.Request) {
+	// (it answers 500, or with a redirect to another host: the Host of every request that follows still has to be the
+	// URL's - an upstream is one server, not whoever that server points at)
+	var redirect atomic.Int32
+	capture := http.HandlerFunc(func(w http.ResponseWriter, r *http.Request) {
 		mu.Lock()
 		hosts = append(hosts, r.Host)
 		mu.Unlock()
+		if st := int(redirect.Load()); st != 0 {
+			scheme := "http"
+			if r.TLS != nil {
+				scheme = "https"
+			}
+			w.Header().Set("Location", scheme+"://elsewhere.vf.test/dns-query")
+			w.WriteHeader(st)
+			return
+		}
 		w.WriteHeader(500)
-	}))
+	})
+	go http.Serve(hl, capture)
+	// HTTPS capture server that completes the handshake (the client is told not to verify): records server name and Host
+	_, hleaf := vfTLSMaterial()
+	hsl, err := net.Listen("tcp", "127.0.0.1:0")
+	if err != nil {
+		t.Fatal(err)
+	}
+	defer hsl.Close()
+	hsrv := &http.Server{Handler: capture, TLSConfig: &tls.Config{NextProtos: []string{"h2", "http/1.1"}, Certificates: []tls.Certificate{hleaf.TLS},
+		GetConfigForClient: func(h *tls.ClientHelloInfo) (*tls.Config, error) {
+			mu.Lock()
+			snis = append(snis, h.ServerName)
+			mu.Unlock()
+			return nil, nil
+		}}}
+	go hsrv.ServeTLS(hsl, "", "")
+	defer hsrv.Close()
 	// QUIC capture server (quic:// and h3:// upstreams): records the server name of the ClientHello, then refuses
 	_, qleaf := vfTLSMaterial()
 	qpc, err := net.ListenUDP("udp", &net.UDPAddr{IP: net.IPv4(127, 0, 0, 1)})
@@ -477,7 +507,13 @@ func TestVfC17ServerName(t *testing.T) {
 		}
 	}()
 	rapid.Check(t, func(t *rapid.T) {
-		scheme := rapid.SampledFrom([]string{"tls", "tls+pipeline", "https", "http", "quic", "h3"}).Draw(t, "scheme")
+		scheme := rapid.SampledFrom([]string{"tls", "tls+pipeline", "https", "http", "http", "quic", "h3", "https-answering"}).Draw(t, "scheme")
+		// the HTTP servers answer 500 or redirect to another host
+		redirect.Store(int32(rapid.SampledFrom([]int{0, 301, 302, 303, 307, 308}).Draw(t, "httpRedirect")))
+		answering := scheme == "https-answering"
+		if answering {
+			scheme = "https"
+		}
 		host := rapid.SampledFrom([]string{"dns.example.org", "a-b.resolver.test", "192.0.2.53", "UPPER.example"}).Draw(t, "host")
 		port := ""
 		if rapid.Bool().Draw(t, "hasPort") {
@@ -491,13 +527,20 @@ func TestVfC17ServerName(t *testing.T) {
 		if scheme == "http" {
 			dial = hl.Addr().String()
 		}
+		if answering {
+			dial = hsl.Addr().String()
+		}
 		if scheme == "quic" || scheme == "h3" {
 			dial = qpc.LocalAddr().String()
 		}
 		mu.Lock()
 		snis, hosts = nil, nil
 		mu.Unlock()
-		u, err := upstream.NewUpstream(url, upstream.Opt{DialAddr: dial, DialTimeout: time.Second})
+		opt := upstream.Opt{DialAddr: dial, DialTimeout: time.Second}
+		if answering {
+			opt.TLSConfig = &tls.Config{InsecureSkipVerify: true}
+		}
+		u, err := upstream.NewUpstream(url, opt)
 		if err != nil {
 			t.Fatalf("NewUpstream(%q): %v", url, err)
 		}
@@ -517,16 +560,40 @@ func TestVfC17ServerName(t *testing.T) {
 			if port != "" {
 				want += ":" + port
 			}
-			if len(gotHosts) == 0 || !strings.EqualFold(gotHosts[0], want) {
-				t.Fatalf("%s via dial_addr: HTTP Host %q, expected %q", url, gotHosts, want)
+			if len(gotHosts) == 0 {
+				t.Fatalf("%s via dial_addr: no HTTP request arrived", url)
+			}
+			for _, h := range gotHosts {
+				if !strings.EqualFold(h, want) {
+					t.Fatalf("%s via dial_addr: HTTP requests with Host %q, expected %q in every one (the server answers with status %d)", url, gotHosts, want, redirect.Load())
+				}
 			}
 		} else {
 			want := host
 			if net.ParseIP(host) != nil {
 				want = "" // no SNI for IP literals
 			}
-			if len(gotSNI) == 0 || !strings.EqualFold(gotSNI[0], want) {
-				t.Fatalf("%s via dial_addr: TLS server name %q, expected %q", url, gotSNI, want)
+			if len(gotSNI) == 0 {
+				t.Fatalf("%s via dial_addr: no ClientHello arrived", url)
+			}
+			for _, n := range gotSNI {
+				if !strings.EqualFold(n, want) {
+					t.Fatalf("%s via dial_addr: TLS server names %q, expected %q in every handshake", url, gotSNI, want)
+				}
+			}
+			if answering {
+				wantHost := host
+				if port != "" {
+					wantHost += ":" + port
+				}
+				if len(gotHosts) == 0 {
+					t.Fatalf("%s via dial_addr: the handshake completed but no HTTP request arrived", url)
+				}
+				for _, h := range gotHosts {
+					if !strings.EqualFold(h, wantHost) {
+						t.Fatalf("%s via dial_addr: HTTP requests with Host %q, expected %q in every one (the server answers with status %d)", url, gotHosts, wantHost, redirect.Load())
+					}
+				}
 			}
 		}
 		st.Case(vfkit.Fingerprint(url), true, []string{"scheme=" + scheme}, func() any {
